@@ -334,11 +334,14 @@ def infer_with_order(prog, phase_order, stmt_orders, front_end=False):
     try:
         with contextlib.redirect_stdout(buf):
             try:
-                if front_end:
+                if front_end is True:
                     import dagrt.language as L
                     from dagrt.data import infer_kinds
                     dag = L.DAGCode({n: L.ExecutionPhase(n, next_phase=n, statements=st) for n, st in zip(names, phases)}, names[0])
                     tbl = infer_kinds(dag, registry())
+                elif front_end == "iterators":
+                    # "a list of iterables" (docstring): one-shot iterators, as the Fortran generator passes them
+                    tbl = SymbolKindFinder(registry())(names, [iter(p) for p in phases])
                 else:
                     tbl = SymbolKindFinder(registry())(names, phases)
             except _Hang:
@@ -360,7 +363,8 @@ def harness_infer(prog):
             o, _ = symbolic_sort(prog["phases"][n], "st_" + n)
             sorders[n] = o
         # entry point: SymbolKindFinder called directly (as the Fortran generator does) | the infer_kinds(dag) front end
-        front = bool(ex.branch(z3.Bool("entry_infer_kinds"))) if len(pnames) > 1 else False
+        # (statement lists | one-shot iterators of statements) x (direct call | infer_kinds, only with several phases)
+        front = [False, "iterators", True][ex.choice(3 if len(pnames) > 1 else 2, "entry")]
         r = infer_with_order(prog, porder, sorders, front_end=front)
         if "does not terminate" in str(r[1]):
             ex.abort_all = True      # one witness is enough; every further order would cost another 5 s
